@@ -17,12 +17,14 @@ def build(tier, ctx):
     if tier == "quick":
         defs = pvcommon.scope_defs(ctx["repo"], 5)
         defs += pvcommon.extended_defs(5)
+        defs += pvcommon.skeleton_defs(tier)
         for nm, d in defs:
             tasks.append({"name": nm, "defn": dsl.to_list(d), "k": 2,
                           "pres": pres, "mode": "c01"})
     else:
         defs = pvcommon.scope_defs(ctx["repo"], 7)
         defs += pvcommon.extended_defs(6)
+        defs += pvcommon.skeleton_defs(tier)
         for nm, d in defs:
             tasks.append({"name": nm, "defn": dsl.to_list(d), "k": 2,
                           "pres": pres, "mode": "c01"})
